@@ -1,6 +1,8 @@
 -------------------------- MODULE ListenerHttpEmit --------------------------
 (* prints the request classes with <=1 and exactly 2 deviations from the    *)
 (* valid request (enumerated by TLC; the harness concretises each of them)  *)
-EXTENDS ListenerHttp
+(* and the lexeme classes (position, class) with everything else valid      *)
+EXTENDS ListenerHttpLex
 ASSUME EmitClasses
+ASSUME EmitLex
 =============================================================================
